@@ -140,6 +140,9 @@ func genSessions(c *lib.Ctx, rng *rand.Rand) []sessIn {
 			s.DestName = fmt.Sprintf("dest%d", s.ID)
 		}
 		s.Cfg.normalize()
+		if !c.Thorough() && s.StopAfterRefused == 0 {
+			s.StopAfterRefused = 1
+		}
 		out = append(out, s)
 	}
 	mult := 1
@@ -303,9 +306,24 @@ func genSessions(c *lib.Ctx, rng *rand.Rand) []sessIn {
 	add(sessIn{Kind: "f:before-first", Asset: "testpic_2s", MPD: "Manifest.mpd", Cfg: cfgIn{Mode: "number", Snr: -1, Tsbd: -1}, NowMS: 1000, Test: true, Events: steps(3)})
 	// 8. real time (no testNowMS): the timer drives the session; a receiver slower than a segment
 	//    duration makes the sender catch up (the caught-up segment is never marked as last)
-	add(sessIn{Kind: "realtime", Asset: "testpic_2s", MPD: "Manifest.mpd", Cfg: cfgIn{Mode: "number", Snr: -1, Tsbd: -1}, Test: false, AlignMS: 2000, AlignOff: 1200,
-		Events: []evIn{{Kind: "wait", WaitMS: 1100}, {Kind: "wait", WaitMS: 2000}, {Kind: "delete"}}})
-	add(sessIn{Kind: "f:realtime-catchup", Asset: "testpic_2s", MPD: "Manifest.mpd", Cfg: cfgIn{Mode: "number", Snr: -1, Tsbd: -1}, Test: false, AlignMS: 2000, AlignOff: 1200, Dur: intp(2),
+	if c.Thorough() { // the quick tier keeps one real-time session (the catch-up one below)
+		add(sessIn{Kind: "realtime", Asset: "testpic_2s", MPD: "Manifest.mpd", Cfg: cfgIn{Mode: "number", Snr: -1, Tsbd: -1}, Test: false, AlignMS: 2000, AlignOff: 1200,
+			Events: []evIn{{Kind: "wait", WaitMS: 1100}, {Kind: "wait", WaitMS: 2000}, {Kind: "delete"}}})
+	}
+	// 9. DELETE while an init segment is being uploaded (the session is not yet "running"): it must
+	//    stop all the same: no later init, no step taken, no media segment
+	for i, hold := range []struct {
+		a    assetSpec
+		rep  string
+		mode string
+	}{{sessAssets[0], "V300", "number"}, {sessAssets[0], "A48", "tlt"}, {sessAssets[1], "A48", "number"}, {sessAssets[3], "V300", "tlnr"}} {
+		if i >= 2 && !c.Thorough() {
+			break
+		}
+		add(sessIn{Kind: "delete-during-init", Asset: hold.a.path, MPD: hold.a.mpd, Cfg: cfgIn{Mode: hold.mode, Snr: -1, Tsbd: -1}, NowMS: 10000 + int64(i)*2000,
+			Test: true, HoldInit: hold.rep, Events: steps(1 + i%2)})
+	}
+	add(sessIn{Kind: "r:realtime-catchup", Asset: "testpic_2s", MPD: "Manifest.mpd", Cfg: cfgIn{Mode: "number", Snr: -1, Tsbd: -1}, Test: false, AlignMS: 2000, AlignOff: 1200, Dur: intp(2),
 		Events: []evIn{{Kind: "wait", WaitMS: 3600, SlowRep: "V300", SlowMS: 2300}}})
 	return out
 }
@@ -563,12 +581,29 @@ func judge(c *lib.Ctx, terms *[]string, s *sessIn, p *played, a *lib.TLAsset) {
 		}
 		seenInit[q.Rep]++
 	}
-	for _, r := range reps {
-		if seenInit[r.id] != 1 {
-			fail("init:count", fmt.Sprintf("representation %s got %d init segments", r.id, seenInit[r.id]))
+	holdIdx := -1
+	if s.HoldInit != "" {
+		if i, ok := repIdx[s.HoldInit]; ok {
+			holdIdx = i
+		} else {
+			fail("harness:hold", "representation to hold is not part of the session: "+s.HoldInit)
+			return
 		}
 	}
-	initRefused := len(s.InitRefuse) > 0
+	for i, r := range reps {
+		want := 1
+		if holdIdx >= 0 && i > holdIdx {
+			want = 0 // the session was deleted while an earlier init was being uploaded
+		}
+		if seenInit[r.id] != want {
+			key := "init:count"
+			if want == 0 {
+				key = "delete:continues"
+			}
+			fail(key, fmt.Sprintf("representation %s got %d init segments, expected %d", r.id, seenInit[r.id], want))
+		}
+	}
+	initRefused := len(s.InitRefuse) > 0 || holdIdx >= 0
 
 	// walk through the events
 	active := !initRefused
@@ -606,8 +641,14 @@ func judge(c *lib.Ctx, terms *[]string, s *sessIn, p *played, a *lib.TLAsset) {
 				continue
 			}
 			if !expectPuts {
+				key := "stop:continues"
+				if holdIdx >= 0 {
+					key = "delete:continues"
+				}
 				if len(eo.Puts) > 0 {
-					fail("stop:continues", fmt.Sprintf("step %d delivered %d PUTs although the session had ended", k, len(eo.Puts)))
+					fail(key, fmt.Sprintf("step %d delivered %d PUTs although the session had ended", k, len(eo.Puts)))
+				} else {
+					fail(key, fmt.Sprintf("step %d was taken (status 200) although the session had ended", k))
 				}
 				continue
 			}
@@ -721,7 +762,11 @@ func judge(c *lib.Ctx, terms *[]string, s *sessIn, p *played, a *lib.TLAsset) {
 			}
 		}
 		if initRefused && len(seq) > 0 {
-			fail("init-refused:continues", "media segments although an init segment was refused")
+			key := "init-refused:continues"
+			if holdIdx >= 0 {
+				key = "delete:continues"
+			}
+			fail(key, "media segments although the session ended in its init phase")
 		}
 	}
 	// O6/O7: final state
@@ -863,9 +908,12 @@ func tcfgOf(s *sessIn) string {
 	return coqTcfg(s.Cfg.StartS, snr, tsbd, s.Cfg.AtoMS)
 }
 
-func coqEvents(s *sessIn, repIdx map[string]int, nrep int, ref *lib.TLRep, now int64) string {
+func coqEvents(s *sessIn, repIdx map[string]int, nrep int, ref *lib.TLRep, now int64, played int) string {
 	var evs []string
-	for _, e := range s.Events {
+	for k, e := range s.Events {
+		if played >= 0 && k >= played {
+			break // not played (quick tier: steps after the first one that was not taken)
+		}
 		switch e.Kind {
 		case "step":
 			refuse := make([]bool, nrep)
@@ -910,6 +958,10 @@ func sessTerm(id int, s *sessIn, o *sessOut, reps []repInfo, repIdx map[string]i
 		inits = append(inits, int64(repIdx[q.Rep]))
 	}
 	timeMode := s.Cfg.Mode == "tlt"
+	cancelInit := "None"
+	if i, ok := repIdx[s.HoldInit]; ok && s.HoldInit != "" {
+		cancelInit = fmt.Sprintf("(Some %d)", i)
+	}
 	var evs, rets []string
 	for _, eo := range o.Events {
 		var ps []string
@@ -928,9 +980,9 @@ func sessTerm(id int, s *sessIn, o *sessOut, reps []repInfo, repIdx map[string]i
 		rets = append(rets, lib.Cbool(eo.Returned))
 	}
 	return fmt.Sprintf("CSess %d {| s_reps := [%s]; s_ref := %s; s_loopMS := %d; s_segDurMS := %d; s_cfg := %s; s_timeline := %s; s_test := %s; s_dur := %s; s_chunked := %s; "+
-		"s_now := %d; s_initres := %s; s_events := %s; o_inits := %s; o_events := [%s]; o_returned := [%s]; o_final := %d |}",
+		"s_now := %d; s_initres := %s; s_cancel_init := %s; s_events := %s; o_inits := %s; o_events := [%s]; o_returned := [%s]; o_final := %d |}",
 		id, strings.Join(rs, "; "), lib.CoqRep(ref.VodRep), o.LoopMS, o.SegDurMS, tcfgOf(s), lib.Cbool(timeMode), lib.Cbool(s.Test), coqOptZ(s.Dur), lib.Cbool(o.Chunked),
-		now, coqBools(initres), coqEvents(s, repIdx, len(reps), ref, now), lib.Zlist64(inits), strings.Join(evs, "; "), strings.Join(rets, "; "), o.Final)
+		now, coqBools(initres), cancelInit, coqEvents(s, repIdx, len(reps), ref, now, len(o.Events)), lib.Zlist64(inits), strings.Join(evs, "; "), strings.Join(rets, "; "), o.Final)
 }
 
 // sessTermDead builds the case of a session whose process died (no information from the hook):
@@ -961,9 +1013,9 @@ func sessTermDead(id int, s *sessIn, a *lib.TLAsset) string {
 		initres[i] = true
 	}
 	return fmt.Sprintf("CSess %d {| s_reps := [%s]; s_ref := %s; s_loopMS := %d; s_segDurMS := %d; s_cfg := %s; s_timeline := %s; s_test := %s; s_dur := %s; s_chunked := %s; "+
-		"s_now := %d; s_initres := %s; s_events := %s; o_inits := %s; o_events := []; o_returned := []; o_final := 3 |}",
+		"s_now := %d; s_initres := %s; s_cancel_init := None; s_events := %s; o_inits := %s; o_events := []; o_returned := []; o_final := 3 |}",
 		id, strings.Join(rs, "; "), lib.CoqRep(ref.VodRep), a.LoopMS, segDur, tcfgOf(s), lib.Cbool(s.Cfg.Mode == "tlt"), lib.Cbool(s.Test), coqOptZ(s.Dur), lib.Cbool(s.Cfg.ChunkDurMS > 0),
-		s.NowMS, coqBools(initres), coqEvents(s, map[string]int{}, nrep, ref, s.NowMS), lib.Zlist64(inits))
+		s.NowMS, coqBools(initres), coqEvents(s, map[string]int{}, nrep, ref, s.NowMS, -1), lib.Zlist64(inits))
 }
 
 // ---------------------------------------------------------------- replay
